@@ -1,3 +1,94 @@
 import PysphVerif.Driver.Common
-/-! Line-protocol driver for C13 (stub: not built yet). -/
-def main : IO Unit := PysphVerif.Driver.loopPure (fun _ => "bad-op")
+import PysphVerif.Model.GaussJordan
+/-!
+Line protocol for C13.  Doubles travel as bit patterns (`x<16 hex>`), rationals as `p/q`.
+
+  `gj     tol=<f> n=<nat> nb=<nat> m=<fl> r=<fl>`  → `ret=<0|1> res=<fl> m=<fl|->`   (repaired gj_solve, Float)
+  `gjorig tol=<f> n=<nat> nb=<nat> m=<fl> r=<fl>`  → same, pinned (pre-pass) algorithm
+  `gjq    tol=<q> n=<nat> nb=<nat> m=<ql> r=<ql>`  → `ret=<0|1> res=<ql>`            (repaired gj_solve, exact ℚ)
+  `identity n=<nat> a=<fl>`                        → `<fl>`
+  `dot n=<nat> a=<fl> b=<fl>`                      → `<f>`
+  `matmult n=<nat> a=<fl> b=<fl> r=<fl>`           → `<fl>`
+  `matvec n=<nat> a=<fl> b=<fl> r=<fl>`            → `<fl>`
+  `aug n=<nat> na=<nat> nmax=<nat> A=<fl> b=<fl> r=<fl>` → `<fl>`
+Arrays too small for the indices the code touches answer `error` (Python raises IndexError).
+-/
+namespace PysphVerif.Driver.C13
+open PysphVerif.Wire PysphVerif.GaussJordan
+
+def fl (kv : List (String × String)) (k : String) : Option (Array Float) :=
+  ((lookup kv k) >>= parseList? parseFloatBits?).map List.toArray
+def ql (kv : List (String × String)) (k : String) : Option (Array Rat) :=
+  ((lookup kv k) >>= parseList? parseRat?).map List.toArray
+def nat (kv : List (String × String)) (k : String) : Option Nat := (lookup kv k) >>= parseNat?
+
+def showFl (a : Array Float) : String := showList showFloatBits a.toList
+def showQl (a : Array Rat) : String := showList showRat a.toList
+
+def showOutcome (o : Outcome Float) : String :=
+  s!"ret={if o.singular then 1 else 0} res={showFl o.result} m={match o.m with | none => "-" | some m => showFl m}"
+
+def handle (line : String) : String :=
+  match tokens line with
+  | [] => "bad-op"
+  | cmd :: rest =>
+    let kv := kvs rest
+    let r : Option String :=
+      if cmd = "gj" ∨ cmd = "gjorig" then do
+        let tol ← (lookup kv "tol") >>= parseFloatBits?
+        let n ← nat kv "n"
+        let nb ← nat kv "nb"
+        let m ← fl kv "m"
+        let res ← fl kv "r"
+        if !sizesOk m n nb res then pure "error"
+        else if cmd = "gj" then pure (showOutcome (gjSolve tol m n nb res))
+        else pure (showOutcome (gjSolveOrig tol m n nb res))
+      else if cmd = "gjq" then do
+        let tol ← (lookup kv "tol") >>= parseRat?
+        let n ← nat kv "n"
+        let nb ← nat kv "nb"
+        let m ← ql kv "m"
+        let res ← ql kv "r"
+        if !sizesOk m n nb res then pure "error"
+        else
+          let o := gjSolve tol m n nb res
+          pure s!"ret={if o.singular then 1 else 0} res={showQl o.result}"
+      else if cmd = "identity" then do
+        let n ← nat kv "n"
+        let a ← fl kv "a"
+        if a.size < n * n then pure "error" else pure (showFl (identity a n))
+      else if cmd = "dot" then do
+        let n ← nat kv "n"
+        let a ← fl kv "a"
+        let b ← fl kv "b"
+        if a.size < n ∨ b.size < n then pure "error" else pure (showFloatBits (dot a b n))
+      else if cmd = "matmult" then do
+        let n ← nat kv "n"
+        let a ← fl kv "a"
+        let b ← fl kv "b"
+        let res ← fl kv "r"
+        if a.size < n * n ∨ b.size < n * n ∨ res.size < n * n then pure "error"
+        else pure (showFl (matMult a b n res))
+      else if cmd = "matvec" then do
+        let n ← nat kv "n"
+        let a ← fl kv "a"
+        let b ← fl kv "b"
+        let res ← fl kv "r"
+        if a.size < n * n ∨ b.size < n ∨ res.size < n then pure "error"
+        else pure (showFl (matVecMult a b n res))
+      else if cmd = "aug" then do
+        let n ← nat kv "n"
+        let na ← nat kv "na"
+        let nmax ← nat kv "nmax"
+        let A ← fl kv "A"
+        let b ← fl kv "b"
+        let res ← fl kv "r"
+        if n > nmax ∨ (n > 0 ∧ A.size < nmax * (n - 1) + n) ∨ b.size < na * n ∨ res.size < (n + na) * n
+        then pure "error"
+        else pure (showFl (augmentedMatrix A b n na nmax res))
+      else none
+    r.getD "bad-op"
+
+end PysphVerif.Driver.C13
+
+def main : IO Unit := PysphVerif.Driver.loopPure PysphVerif.Driver.C13.handle
